@@ -34,6 +34,10 @@ def run_vi(ctx, args, stdin_bytes, env_extra=None, timeout=20, cwd=None, trace=T
         recs, to = [{"ev": "runaway"}], True        # a trace this long is a loop that no longer reads its input
     elif tr and os.path.exists(tr):
         with open(tr, "rb") as f:
+            if fsize and os.path.getsize(tr) > (30 << 20):      # a very long trace: only its last records are looked at
+                f.seek(-(2 << 20), 2)
+                f.readline()
+                recs.append({"ev": "head-skipped"})
             for ln in f:
                 try:
                     recs.append(json.loads(ln))
